@@ -566,3 +566,79 @@ pub fn main_idlrt(o: &Opts) {
         vec![format!("idlrt-inline-witness {} => {}", enc_bytes(text.as_bytes()), parse_obs(&text).split(' ').next().unwrap())]
     });
 }
+
+
+// ------------------------------------------------------------------ idlx: GetInterfaceDescription end to end
+
+fn spice(cs: &mut Vec<String>, rng: &mut Rng) {
+    // comment texts that need JSON escaping on the wire (quotes, backslashes, control characters, non-ASCII)
+    const POOL: &[&str] = &["say \"hi\"", "back\\slash \\n", "tab\there", "bell\u{7}!", "\u{1f}unit\u{1f}", "é ü € 😅", "\u{0}nul", "del\u{7f}", "\"", "\\", "a\u{8}\u{c}b", "mixed \"q\" \\ \t é"];
+    if rng.chance(1, 2) {
+        cs.push(rng.pick(POOL).to_string());
+    }
+}
+
+fn spice_fields(fs: &mut [Field], rng: &mut Rng) {
+    for f in fs.iter_mut() {
+        spice(&mut f.cs, rng);
+    }
+}
+
+/// `idlx T <tree> => W <frame the service wrote> X <what the client's parse() returned>`: the service
+/// answers GetInterfaceDescription with `InterfaceDescription::from(&interface)`, the client calls the
+/// proxy method on a connection fed with exactly those bytes and parses the description.
+pub fn main_idlx(o: &Opts) {
+    use zlink_core::varlink_service::{self as vs, Proxy};
+    let mut rng = Rng::new(o.seed ^ 0x69646c78);
+    let mut em = Emitter::new(o.index);
+    let n = if o.thorough() { 20_000 } else { 1500 };
+    for t in 0..n {
+        let mut r2 = Rng::new(rng.next());
+        em.case(|| {
+            let (mut tree, _) = gen_iface(&mut r2, if t % 4 == 0 { 0 } else { 3 }, false);
+            spice(&mut tree.cs, &mut r2);
+            for ct in tree.types.iter_mut() {
+                match ct {
+                    CT::Obj { fields, cs, .. } => { spice(cs, &mut r2); spice_fields(fields, &mut r2); }
+                    CT::Enum { cs, .. } => spice(cs, &mut r2),
+                }
+            }
+            for m in tree.methods.iter_mut() {
+                spice(&mut m.cs, &mut r2);
+                spice_fields(&mut m.ins, &mut r2);
+                spice_fields(&mut m.outs, &mut r2);
+            }
+            for e in tree.errors.iter_mut() {
+                spice(&mut e.cs, &mut r2);
+                spice_fields(&mut e.fields, &mut r2);
+            }
+            let iface: &'static z::Interface<'static> = leak(build(&tree, t % 2 == 0));
+            // service side
+            let snet = new_net(vec![]);
+            let mut sconn = zlink_core::Connection::new(SSocket(snet.clone()));
+            let desc = vs::InterfaceDescription::from(iface);
+            let reply = zlink_core::Reply::new(Some(vs::Reply::InterfaceDescription(desc)));
+            let sent = block_on(sconn.send_reply(&reply));
+            let frame: Vec<u8> = snet.borrow().writes.concat();
+            if sent.is_err() {
+                return vec![format!("idlx T {} => W {} X send-error", dump(&tree), enc_bytes(&frame))];
+            }
+            // client side: random read sizes
+            let sizes: Vec<usize> = (0..r2.below(6)).map(|_| r2.range(1, 300)).collect();
+            let cnet = new_net(sizes);
+            cnet.borrow_mut().avail.extend(frame.iter().copied());
+            cnet.borrow_mut().closed = true;
+            let mut cconn = zlink_core::Connection::new(SSocket(cnet.clone()));
+            let x = match block_on(cconn.get_interface_description("a.b")) {
+                Ok(Ok(d)) => match std::panic::catch_unwind(std::panic::AssertUnwindSafe(|| d.parse().map(|i| dump(&tree_of(&i))))) {
+                    Ok(Ok(dmp)) => format!("ok {dmp}"),
+                    Ok(Err(_)) => "error".into(),
+                    Err(_) => "panic".into(),
+                },
+                Ok(Err(_)) => "method-error".into(),
+                Err(_) => "decode-error".into(),
+            };
+            vec![format!("idlx T {} => W {} X {}", dump(&tree), enc_bytes(&frame), x)]
+        });
+    }
+}
